@@ -100,6 +100,20 @@ Theorem C09_wait_inevitably_returns :
 Proof. intros tr s H Hw. apply wait_inevitably_returns; [exact (rrun_inv tr rinit s rinv_init H) | exact Hw]. Qed.
 Print Assumptions C09_wait_inevitably_returns.
 
+(* Executor over reaper.  Model/Exec.v lets an arbitrary oracle decide which in-flight process exits
+   next and with which status ([pick], [rc_of]) and proves every scheduler theorem for ALL oracles.
+   The protocol delivers nothing outside that quantification: along any run in which every child
+   exits once, the values wait() has returned are pairwise distinct children, each one a child that
+   did exit, with the status it exited with -- i.e. some completion order with the true statuses,
+   one of the oracles. *)
+Theorem C09_wait_results_are_an_admissible_oracle :
+  forall tr s, rrun false rinit tr = Some s -> NoDup (map fst (exits_of tr)) ->
+  NoDup (map fst (returned s)) /\
+  (forall p rc, In (p, rc) (returned s) -> In (p, rc) (exits_of tr)) /\
+  (forall p rc rc', In (p, rc) (returned s) -> In (p, rc') (exits_of tr) -> rc = rc').
+Proof. exact wait_results_admissible. Qed.
+Print Assumptions C09_wait_results_are_an_admissible_oracle.
+
 (* the protocol before /repo 2ba821d (the Python-level handler is the only writer of the pipe) loses
    a wake-up: D17, found as real hangs, kept as a machine-checked record *)
 Theorem C09_old_protocol_refuted :
